@@ -86,26 +86,35 @@ CHECKS["C10"] = dict(
              "for the HUP monitor) + differential correspondence with the C functions in-process and trace replay of the real daemon process under SIGHUP, with and without deliveries",
    design="DESIGN.md §2 C10")
 CHECKS["C11"] = dict(
-   text="31 theorems about the Lean model of qmail-newu / cdb / qmail-lspawn nughde_get+spawn+report / qmail-getpw (Nq/Users.lean), for ALL users/assign files, "
-        "tables, passwd databases, addresses and single-call fault plans: qmail-local is executed only right after successful setgroups[g], setgid g, setuid u, "
-        "getuid=u≠0 with exactly the record's ids and argv; uid 0 (also via non-numeric/wrapping fields) is never executed; qmail-newu's line compiler equals the "
-        "declarative colon-field reading of users/assign for every file (C11_newu_parse); the BYTE-level constant database round trip — cdb_seek+cdb_bread "
-        "(hash, header pointer, slot walk with wrap-around, record header, chunked key comparison, little-endian words) on the bytes cdbmake writes returns the "
-        "first pair's data / absent for every list below the format's 4 GiB limit (C11_cdb_roundtrip); nughde_get's probe order on those bytes equals the "
-        "declarative assignment (first exact entry, else longest wildcard prefix, first duplicate, case-insensitive), end to end from the text of users/assign "
-        "(C11_assign_to_nughde); on ANY file a hit is backed by a real slot/header/key/data inside the file, answers are stable under file extension, and a "
-        "truncated database gives the right record or exit QLX_CDB, never another identity (C11_cdb_hit_sound, C11_cdb_truncated, C11_truncated_defers); "
-        "qmail-getpw's loop equals the password-file rules; every lookup/identity error code is reported as one fixed line Z...\\n. "
+   text="43 theorems about the Lean model of qmail-newu / cdb / qmail-lspawn nughde_get+spawn+report / qmail-getpw (Nq/Users.lean), for ALL users/assign files, "
+        "tables, passwd databases, addresses (any bytes) and single-call fault plans. Composed identity (C11_identity): with users/cdb compiled by qmail-newu from "
+        "users/assign (or absent) and no failing call, the delivery child does exactly what the tables dictate - the record of 'first exact entry, else longest wildcard "
+        "prefix (first duplicate, ASCII-case-insensitive), or else the password-file rules', read by an independent record reader, then setgroups[gid], setgid gid, "
+        "setuid uid, getuid, execv bin/qmail-local with the argv of qmail-local(8); uid 0 (also via non-numeric/wrapping fields) exits QLX_ROOT before any exec; under "
+        "every fault any exec that still happens has exactly that identity and argv, and nothing is executed when the tables give no runnable identity "
+        "(C11_identity_faults); every non-exec end of the child is exit 0 for the null recipient, QLX_EXECHARD after a permanent execv failure, or a code reported Z "
+        "(C11_child_defers). These are compositions of inductive results: qmail-newu's line compiler = the declarative colon-field reading for every file (C11_newu_parse); "
+        "the BYTE-level cdb round trip - cdb_seek+cdb_bread on the bytes cdbmake writes returns the first pair's data / absent for every list below 4 GiB "
+        "(C11_cdb_roundtrip); nughde_get's probe order = the declarative assignment (C11_lookup_spec, C11_assign_to_nughde); qmail-getpw's loop = the password-file rules; "
+        "spawn()'s six byte_chr/scan_ulong steps = the declarative record (C11_record_parse), tied to the fields of the users/assign line and of the passwd entry "
+        "(C11_table_record, C11_passwd_record). On ANY file a hit is backed by a real slot/header/key/data, answers are stable under extension, a truncated database gives "
+        "the right record or QLX_CDB (C11_cdb_hit_sound, C11_cdb_truncated, C11_truncated_defers); every lookup/identity error code is one fixed line Z...\\n. "
+        "NOT inductive: C11_order/C11_argv/C11_runs_assigned_user/C11_never_root speak about the model's dropAndExec, which emits the four calls before execv in that "
+        "order by construction (content: no other path execs; ids/argv are the parsed record's); that the real spawn() does so is established by trace replay. "
         "Tied to the current source by the translator (qlx.h, report() switch and texts, conf-break, GETPW_USERLEN, hash start) and by running the real qmail-newu "
         "(cdb compared byte for byte and dumped record by record), cdb_seek (result and file position, also on corrupted/truncated files), qmail-getpw and "
-        "docmd()+spawn() child with setgroups/setgid/setuid/getuid/execv recorded, on exhaustive template tables and seeded random tables/passwd databases/faults; "
-        "the oracle is the independent spec evaluated on the implementation's output.",
+        "docmd()+spawn() child with setgroups/setgid/setuid/getuid/execv recorded, on exhaustive ASCII and 8-bit template tables and seeded random tables/passwd "
+        "databases/faults with names over the whole byte range; the oracle is the independent spec (specIdentity, specRecord, specArgv, specChild, guardedAny, traceOk) "
+        "evaluated on the implementation's recorded calls and outcome.",
    note=NOTE_COMMON + "Modelled, not verified: POSIX meaning of setgroups/setgid/setuid/getuid; scripted getpwnam/stat; cdb files of 4 GiB and more (the format's limit, "
         "unchecked by cdbmss.c) are outside the round-trip theorem; pointer bytes above 16 MiB and key mismatches that need a 32-bit hash collision are covered by the "
-        "theorem and the byte-exact model but cannot be exercised by the harness; allocation failures and qmail-pw2u are not modelled.",
-   technique="Lean 4 proof (trace predicates over the child's call list; probe-order = longest-prefix spec; linear-probing insertion invariant; byte-layout 'At' lemmas + "
-             "slot-walk/scan simulation for the cdb (de)serialisation; parser = declarative field splitting; monotonicity of the reader under file extension) "
-             "+ byte-exact differential correspondence with fault injection and file corruption",
+        "theorem and the byte-exact model but cannot be exercised by the harness; allocation failures and qmail-pw2u are not modelled; the order of the stdin/stdout/stderr "
+        "moves is compared with the model only (property-neutral), not by the oracle; `Installed` assumes users/cdb is the output of qmail-newu (arbitrary/corrupt files: "
+        "only the any-file theorems apply).",
+   technique="Lean 4 proof (composition of parser = declarative field splitting, linear-probing insertion invariant, byte-layout 'At' lemmas + slot-walk/scan simulation "
+             "for the cdb (de)serialisation, probe-order = longest-prefix spec, record reader = split at NUL, fmt_ulong/scan_ulong round trip, case analysis over all fault "
+             "plans; trace predicates over the child's call list; monotonicity of the reader under file extension) "
+             "+ byte-exact differential correspondence with fault injection, file corruption and 8-bit names",
    design="DESIGN.md §2 C11")
 CHECKS["C13"] = dict(
    text="51 theorems over ALL extensions, home-directory contents, control-file texts, messages and envelope bytes about the Lean model Nq.Local of qmail-local.c "
